@@ -489,7 +489,8 @@ func (dsc *dataStoreCommand) addFloat(keyName string, delta float64) (value floa
 
 		var err error
 		value, err = strconv.ParseFloat(string(strBytes), 64)
-		if err != nil {
+		if err != nil || math.IsNaN(value) || math.IsInf(value, 0) {
+			// "nan" and "inf" parse as floats but are not numbers to add to
 			valid = VALUE_WRONG_FORMAT
 			return
 		}
